@@ -328,6 +328,22 @@ int main(int argc, char** argv) {
             }
         }
     }
+    // (1d) keys at the extremes of the type (a comparison through a subtraction overflows exactly here): every two-valued input
+    // over {INT_MIN, INT_MAX} and over {-2e9, 2e9}, std::less / default arguments / greater, plus long long and short extremes
+    {
+        static const int lo[2] = { -2147483647 - 1, -2000000000 }, hi[2] = { 2147483647, 2000000000 };
+        for (int n = 0; n <= 16; ++n) {
+            uint32_t total = 1u << n, stride = (thorough || n <= 10) ? 1 : 61;
+            for (uint32_t mask = 0; mask < total; mask += stride) for (int w = 0; w < 2; ++w) {
+                int a[16]; for (int i = 0; i < n; ++i) a[i] = ((mask >> i) & 1) ? hi[w] : lo[w];
+                g_count_distinct = false;
+                run_all_entry(n, a, std::less<int>(), "less/extreme-int");
+                run_defaults(n, a);
+                if (w == 0) run_all_entry(n, a, std::greater<int>(), "greater/extreme-int");
+            }
+        }
+        g_count_distinct = true;
+    }
     // (2) every input over three keys for small n
     int max3 = thorough ? 11 : 8;
     for (int n = 0; n <= max3; ++n) {
@@ -347,7 +363,11 @@ int main(int argc, char** argv) {
         int n = rng.below(17);
         int a[16];
         int universe = rng.chance(1, 2) ? 1 + rng.below(4) : 1000;
-        for (int i = 0; i < n; ++i) a[i] = rng.below(universe);
+        bool extremes = rng.chance(1, 4);   // spread the keys over the whole int range
+        for (int i = 0; i < n; ++i) {
+            a[i] = rng.below(universe);
+            if (extremes) { static const int ex[7] = { -2147483647 - 1, -2147483647, -2000000000, 0, 2000000000, 2147483646, 2147483647 }; a[i] = ex[rng.below(7)] ; }
+        }
         run_all_entry(n, a, std::less<int>(), "less");
         run_all_entry(n, a, std::greater<int>(), "greater");
     }
